@@ -178,6 +178,12 @@ def pair(prefix, k):
     return _produce("pair", "%s|%s" % (prefix, k))
 
 
+@m.memento_function(version="b3")
+def pair3(prefix, k, tag="t0", scale=1):
+    """Like pair, with two optional parameters (batch elements may or may not name them)."""
+    return [_produce("pair3", "%s|%s" % (prefix, k)), tag, scale]
+
+
 # ---- nested calls for concurrency scenarios (C09) (outer is defined below nest) -------------------------------------------
 @m.memento_function(version="n1")
 def nest(case_id):
